@@ -260,12 +260,26 @@ impl Driver {
     }
 
     pub async fn receive_datagram(&self, session_id: SessionId) -> Result<Datagram, DriverError> {
+        #[cfg(wtransport_verif)]
+        let (vconn, vcall) = (self.vid, verif::next_call());
+        vtrace!(vconn, "d_call", call = vcall);
+
         let mut lock = self.ready_datagrams.lock().await;
+
+        vtrace!(vconn, "d_lock", call = vcall);
 
         loop {
             let Some(datagram) = lock.recv().await else {
+                vtrace!(vconn, "d_none", call = vcall);
                 return Err(self.result().await);
             };
+
+            vtrace!(
+                vconn,
+                "d_recv",
+                call = vcall,
+                matched = datagram.session_id() == session_id
+            );
 
             if datagram.session_id() == session_id {
                 return Ok(datagram);
@@ -726,6 +740,10 @@ mod worker {
                 "New incoming datagram (session_id: {})",
                 datagram.session_id()
             );
+
+            #[cfg(wtransport_verif)]
+            let _vorder = verif::order_lock();
+            vtrace!(verif::conn(), "w_dg");
 
             slot.send(datagram);
 
